@@ -886,3 +886,24 @@ func toAdm(line string) string {
 	}
 	return strings.Join(out, " ")
 }
+
+// genPruneCrash: blocks over several files, a prune commit that stays in the
+// cache, and a crash right after it (plain and without un-synced data): the
+// reopened index must not refer to block files that are gone.
+func genPruneCrash(r *core.Rand, emit func(class string, line string)) {
+	maxFile := int(r.Pick(60, 100, 200))
+	ops := []string{"bw:w"}
+	n := 4 + r.Intn(5)
+	for i := 1; i <= n; i++ {
+		ops = append(ops, fmt.Sprintf("sb:w:%d:%d", i, 20+r.Intn(maxFile)))
+	}
+	ops = append(ops, "p:w:.:61:01", "co:w")
+	if r.Bool() {
+		ops = append(ops, "fl")
+	}
+	ops = append(ops, "bw:w", fmt.Sprintf("pr:w:%d", maxFile*int(r.Range(1, 2))), "p:w:.:62:02", "co:w")
+	for _, crash := range []string{"cp", "cps"} {
+		all := append(append([]string{}, ops...), crash, "du", "bw:w", fmt.Sprintf("sb:w:%d:33", n+1), "co:w", "du", "ro", "du")
+		emit("prune-crash", fmt.Sprintf("C05 db %d 100000000 %s", maxFile, strings.Join(all, " ")))
+	}
+}
